@@ -3,7 +3,9 @@ package checks
 import (
 	"fmt"
 
+	pb "github.com/google/go-tdx-guest/proto/tdx"
 	"github.com/google/go-tdx-guest/verify"
+	"google.golang.org/protobuf/proto"
 
 	"verifharness/mc"
 	"verifharness/world"
@@ -32,7 +34,31 @@ func verifyRawBoth(r *mc.Run, id string, raw []byte, o *verify.Options) error {
 	if perr != nil || o == nil {
 		return err
 	}
+	// ... and the same message after a trip through the protobuf wire format (what a caller gets who received the
+	// parsed quote from another process: empty byte fields arrive as nil, not as empty slices)
+	var o3 *verify.Options
+	if o2 != nil {
+		c := *o2
+		if o2.Now != nil {
+			t := *o2.Now
+			c.Now = &t
+		}
+		if g, ok := o2.Getter.(*world.Getter); ok && g != nil {
+			c.Getter = g.Clone()
+		}
+		o3 = &c
+	}
 	err2 := world.SafeVerify(q, o2)
+	if wire, merr := proto.Marshal(q); merr == nil {
+		q3 := &pb.QuoteV4{}
+		if proto.Unmarshal(wire, q3) == nil {
+			err3 := world.SafeVerify(q3, o3)
+			if (err == nil) != (err3 == nil) && !world.IsPanic(err) && !world.IsPanic(err3) {
+				r.Violate("entry-points-disagree:wire-form", id, fmt.Sprintf("verify.RawTdxQuote says %q, verify.TdxQuote on the parsed message after a protobuf wire round trip says %q", errStr(err), errStr(err3)),
+					map[string]any{"raw_quote_hex_prefix": hexs(raw[:prefixLen(raw)])})
+			}
+		}
+	}
 	if (err == nil) != (err2 == nil) && !world.IsPanic(err) && !world.IsPanic(err2) {
 		r.Violate("entry-points-disagree", id, fmt.Sprintf("verify.RawTdxQuote says %q, verify.TdxQuote on the parsed message says %q for the same quote and options", errStr(err), errStr(err2)),
 			map[string]any{"raw_quote_hex_prefix": hexs(raw[:prefixLen(raw)])})
